@@ -14,6 +14,7 @@ N = {"quick": 150, "thorough": 4000}
 LEAN_MODULE = "Pyab.Properties.C13_full"
 
 PAYLOADS = [
+    "a\u201d or x == \u201cb", "\u201d+str(PWNED())+\u201c", "\u2019+str(PWNED())+\u2018", "\uff02+PWNED()+\uff02", "x\ufeff", "\ufeff'+PWNED()+'", "\U0001d400\U0001f600",
     "'+str(PWNED())+'", '"+str(PWNED())+"', "\\'+str(PWNED())+\\'", "'))+str(PWNED())+str(('", "' or PWNED() or '", "')==PWNED() or ('",
     "\\", "\\\\", "\\'", "'", '"', "'''", '"""', "\\n", "\\x27+PWNED()+\\x27", "\\u0027+PWNED()+\\u0027", "\\N{APOSTROPHE}+PWNED()+\\N{APOSTROPHE}",
     "%s" , "%(x)s", "{0}", "{PWNED()}", "{{", "}}", "${PWNED()}", "`PWNED()`", "__import__('os').system('true')", "\t", "\r", "\x00", "\x1b[0m",
@@ -47,6 +48,17 @@ def reflect_plans(rng):
             return "Identifier(name=%r)" % self.n
 
     plans = []
+    # literals that spell a piece of the generated text itself, alone and with a call appended
+    for frag in gen.generated_fragments():
+        for text in (frag, frag + "PWNED()", frag + "\rPWNED() #", "x" + frag + "y = PWNED()"):
+            def build2(sval, text=text):
+                lit = gen.lit_str(sval, rng)
+                r = lambda n: ("ret", [(L(n, quote='"'), "1")])
+                cond = ("if", ("cmp", ("id", "note"), "==", ("lit", lit)), ("ret", [(lit, "1"), (L("b", quote='"'), "1")]), ("else", r("o")))
+                return gen.Program("e", lit if rng.random() < 0.5 else None, ["u"], cond, {"u": "any", "note": "any"})
+            if '"' in text and "'" in text:
+                continue
+            plans.append([build2("zz"), build2(text)])
     for members in shapes:
         tup = ("tuple", members)
         v = pyval(tup)
@@ -264,8 +276,15 @@ def run_batch(ctx, n, with_model=True):
                 before = sentinel.calls, len(printed)
                 try:
                     ev = ExperimentEvaluator(text)
-                    env = {f: rng.choice(["x", 1, "'", "\\"]) for f in set(v.cond_fields()) | set(v.splitters or [])}
-                    common.outcome_of(lambda: ev(**env))
+                except Exception as ex:  # noqa
+                    # the generator's text for this source parsed as Python just above: the evaluator has no reason to refuse it
+                    ctx.violation(f"a substituted literal breaks the evaluator although the generated text is valid Python ({common.classify_exc(ex)}): {text[:200]!r}",
+                                  {"text": text, "error": common.classify_exc(ex)})
+                    ev = None
+                try:
+                    if ev is not None:
+                        env = {f: rng.choice(["x", 1, "'", "\\"]) for f in set(v.cond_fields()) | set(v.splitters or [])}
+                        common.outcome_of(lambda: ev(**env))
                 except Exception:  # noqa
                     pass
                 if (sentinel.calls, len(printed)) != before:
